@@ -97,6 +97,7 @@ func registerVrt(m *Machine) {
 	}
 	m.natives[vrtPkg+"Reach"] = func(m *Machine, args []Value) Value {
 		m.Reached[m.strArg(args[0])]++
+		m.pathReached = append(m.pathReached, m.strArg(args[0]))
 		return nil
 	}
 	m.natives[vrtPkg+"Param"] = func(m *Machine, args []Value) Value {
